@@ -274,6 +274,19 @@ func (em *emitter) setFunctionVarRefs(fn *runtime.Function, closureVars []ast.Up
 			em.varStore.setPredefVarRef(fn, v.NativeValue, int16(i))
 			continue
 		}
+		// v is a variable of an imported package referred to with a selector.
+		if v.NativePkg != "" {
+			fullName := v.NativePkg + "." + v.NativeName
+			em.varStore.setClosureVar(fn, fullName, int16(i))
+			if index, ok := em.varStore.closureVars[em.fb.fn][fullName]; ok {
+				refs[i] = index
+			} else if index, ok := em.varStore.scriggoPackageVarRefs[em.pkg][fullName]; ok {
+				refs[i] = index
+			} else {
+				panic(internalError("don't know how to handle variable %s", fullName))
+			}
+			continue
+		}
 		em.varStore.setClosureVar(fn, v.Declaration.(*ast.Identifier).Name, int16(i))
 		// v is a variable declared in a function.
 		ident := v.Declaration.(*ast.Identifier)
